@@ -347,8 +347,13 @@ func (c *ClusterInfo) syncEndpoints(servers []proxyv1alpha1.UpstreamClusterServe
 	added := wantedEPs.Diff(currentEPs)
 
 	if added.Len() > 0 || deleted.Len() > 0 {
-		// servers changed, reset loadbalancer
-		c.loadbalancer = sync.Map{}
+		// servers changed, reset loadbalancer. The map is emptied in place:
+		// requests pick endpoints concurrently, and overwriting a sync.Map
+		// that is in use corrupts it (nil dirty map, lost mutex state)
+		c.loadbalancer.Range(func(key, _ interface{}) bool {
+			c.loadbalancer.Delete(key)
+			return true
+		})
 	}
 
 	deleted.Range(func(index int, elem interface{}) bool {
